@@ -10,6 +10,7 @@ import (
 	"sort"
 	"strconv"
 	"strings"
+	"sync"
 	"time"
 
 	"github.com/tigerwill90/fox"
@@ -46,6 +47,26 @@ type radixNode struct {
 	K string      `json:"k"`
 	R string      `json:"r"`
 	C []radixNode `json:"c"`
+	// what newNode precomputes from the children (real dumps only; the model derives it from C)
+	real      bool
+	childKeys string
+	paramIdx  int
+	wildIdx   int
+}
+
+// derived returns the child-key string and the indexes of the {param} and *{catchall} children as they follow from
+// the children themselves.
+func (n radixNode) derived() (string, int, int) {
+	keys, pi, wi := "", -1, -1
+	for i, c := range n.C {
+		keys += c.K[:1]
+		if strings.HasPrefix(c.K, "{") {
+			pi = i
+		} else if strings.HasPrefix(c.K, "*") {
+			wi = i
+		}
+	}
+	return keys, pi, wi
 }
 
 type radixEdge struct {
@@ -71,16 +92,22 @@ func idSetKey(xs []int) string {
 }
 
 func dumpToRadix(v fox.VerifNode) radixNode {
-	n := radixNode{K: v.Key, R: v.Route, C: []radixNode{}}
+	n := radixNode{K: v.Key, R: v.Route, C: []radixNode{}, real: true, childKeys: v.ChildKeys, paramIdx: v.ParamChild, wildIdx: v.WildcardChild}
 	for _, c := range v.Children {
 		n.C = append(n.C, dumpToRadix(c))
 	}
 	return n
 }
 
+// radixEqual compares a real tree (a) with a model tree (b), including the indexes the real node precomputed.
 func radixEqual(a, b radixNode) bool {
 	if a.K != b.K || a.R != b.R || len(a.C) != len(b.C) {
 		return false
+	}
+	if a.real {
+		if k, p, w := b.derived(); k != a.childKeys || p != a.paramIdx || w != a.wildIdx {
+			return false
+		}
 	}
 	for i := range a.C {
 		if !radixEqual(a.C[i], b.C[i]) {
@@ -95,6 +122,11 @@ func (n radixNode) String() string {
 	var w func(n radixNode)
 	w = func(n radixNode) {
 		fmt.Fprintf(&b, "(%q", n.K)
+		if n.real {
+			if k, p, w := n.derived(); k != n.childKeys || p != n.paramIdx || w != n.wildIdx {
+				fmt.Fprintf(&b, " [childKeys=%q param=%d wildcard=%d]", n.childKeys, n.paramIdx, n.wildIdx)
+			}
+		}
 		if n.R != "" {
 			fmt.Fprintf(&b, " =%s", n.R)
 		}
@@ -242,6 +274,34 @@ func runRadixPool(r *Run, name string, pool []string, maxRoutes int, rng *rand.R
 		}
 	}
 	probes := radixProbes(rng, pool)
+	var freshMu sync.Mutex
+	freshCache := map[string]*fox.Router{}
+	freshErr := map[string]string{}
+	freshFor := func(ids []int) (*fox.Router, string) {
+		k := idSetKey(ids)
+		freshMu.Lock()
+		defer freshMu.Unlock()
+		if rt, ok := freshCache[k]; ok {
+			return rt, freshErr[k]
+		}
+		fresh, err := fox.New()
+		if err != nil {
+			failTool("fox.New: %v", err)
+		}
+		var set []string
+		for _, i := range ids {
+			set = append(set, pool[i-1])
+		}
+		sort.Strings(set)
+		for _, p := range set {
+			if _, err := fresh.Handle(radixMethod, p, routeHandler(p)); err != nil {
+				freshErr[k] = fmt.Sprintf("Handle %s: %v", p, err)
+				break
+			}
+		}
+		freshCache[k] = fresh
+		return fresh, freshErr[k]
+	}
 	check := func(rt *fox.Router, hist []int, e radixEdge, how string) bool {
 		pat := pool[e.Op.P-1]
 		detail := func() map[string]any {
@@ -264,33 +324,28 @@ func runRadixPool(r *Run, name string, pool []string, maxRoutes int, rng *rand.R
 				return
 			}
 			real := realRadix(rt)
-			if radixEqual(real, e.Tree) {
-				return
-			}
-			// the real tree is not the canonical one: does routing depend on the history?
-			r.addCov("radix_structural_differences", 1)
-			if r.getCov("radix_structural_differences") <= 5 {
-				outf("NOTE radix: real tree differs from the model's after %s %s (%d earlier calls)\n  model: %v\n  real:  %v\n", e.Op.Name, pat, len(hist), e.Tree, real)
-			}
-			fresh, err := fox.New()
-			if err != nil {
-				failTool("fox.New: %v", err)
-			}
-			var set []string
-			for _, i := range e.To {
-				set = append(set, pool[i-1])
-			}
-			sort.Strings(set)
-			for _, p := range set {
-				if _, err := fresh.Handle(radixMethod, p, routeHandler(p)); err != nil {
-					d := detail()
-					d["prescribed"] = "the set reached by the history is accepted by a fresh router"
-					d["obtained"] = fmt.Sprintf("Handle %s: %v", p, err)
-					r.violation("radix: a set reached by a history is refused by a fresh router: "+p, d)
-					ok = false
-					return
+			structural := !radixEqual(real, e.Tree)
+			if structural {
+				// the real tree is not the canonical one: does routing depend on the history?
+				r.addCov("radix_structural_differences", 1)
+				if r.getCov("radix_structural_differences") <= 5 {
+					outf("NOTE radix: real tree differs from the model's after %s %s (%d earlier calls)\n  model: %v\n  real:  %v\n", e.Op.Name, pat, len(hist), e.Tree, real)
 				}
 			}
+			if !structural && idSetKey(e.To) == idSetKey(e.From) {
+				return
+			}
+			// C07's own oracle: a fresh router filled with the same set in sorted order routes every probe identically
+			fresh, ferr := freshFor(e.To)
+			if ferr != "" {
+				d := detail()
+				d["prescribed"] = "the set reached by the history is accepted by a fresh router"
+				d["obtained"] = ferr
+				r.violation("radix: a set reached by a history is refused by a fresh router: "+ferr, d)
+				ok = false
+				return
+			}
+			r.addCov("radix_routing_comparisons", int64(len(probes)))
 			if same, diff := sameRouting(rt, fresh, probes); !same {
 				d := detail()
 				d["prescribed"] = "same routing as a fresh router holding the same set"
@@ -305,33 +360,36 @@ func runRadixPool(r *Run, name string, pool []string, maxRoutes int, rng *rand.R
 	}
 	// 1. every edge once, after a shortest history into its source
 	for i, e := range gr.edges {
+		if !seen[idSetKey(e.From)] {
+			failTool("MC_Radix %s: edge %d leaves a set that no emitted history reaches", name, i)
+		}
+	}
+	parallel(len(gr.edges), func(i int) {
 		if r.tooManyViolations() {
 			return
 		}
-		fk := idSetKey(e.From)
-		if !seen[fk] {
-			failTool("MC_Radix %s: edge %d leaves a set that no emitted history reaches", name, i)
-		}
+		e := gr.edges[i]
 		rt, err := fox.New()
 		if err != nil {
 			failTool("fox.New: %v", err)
 		}
-		hist := gr.history(fk)
-		good := true
+		hist := gr.history(idSetKey(e.From))
 		for _, hi := range hist {
 			if got := applyRadixOp(rt, gr.edges[hi].Op.Name, pool[gr.edges[hi].Op.P-1]); got != gr.edges[hi].Op.Err {
-				good = false // reported when that edge itself is replayed
-				break
+				return // reported when that edge itself is replayed
 			}
 		}
-		if good {
-			check(rt, hist, e, "edge after a shortest history")
-			r.addCov("radix_edges_replayed", 1)
-		}
-	}
+		check(rt, hist, e, "edge after a shortest history")
+		r.addCov("radix_edges_replayed", 1)
+	})
 	// 2. long random walks: deletions, updates and refused calls in the middle of histories
 	walks, steps := pick(r, 150, 1500), pick(r, 40, 80)
-	for w := 0; w < walks && !r.tooManyViolations(); w++ {
+	base := rng.Int63()
+	parallel(walks, func(w int) {
+		if r.tooManyViolations() {
+			return
+		}
+		wrng := rand.New(rand.NewSource(base + int64(w)))
 		rt, err := fox.New()
 		if err != nil {
 			failTool("fox.New: %v", err)
@@ -344,9 +402,9 @@ func runRadixPool(r *Run, name string, pool []string, maxRoutes int, rng *rand.R
 				break
 			}
 			// prefer calls that change the set, so that walks travel
-			i := outs[rng.Intn(len(outs))]
+			i := outs[wrng.Intn(len(outs))]
 			for try := 0; try < 2 && idSetKey(gr.edges[i].To) == key; try++ {
-				i = outs[rng.Intn(len(outs))]
+				i = outs[wrng.Intn(len(outs))]
 			}
 			if !check(rt, hist, gr.edges[i], "random walk") {
 				break
@@ -355,7 +413,7 @@ func runRadixPool(r *Run, name string, pool []string, maxRoutes int, rng *rand.R
 			key = idSetKey(gr.edges[i].To)
 		}
 		r.addCov("radix_walks", 1)
-	}
+	})
 }
 
 var radixPools = []struct {
